@@ -15,4 +15,5 @@ JInv == \A k \in 1..Len(R.obs.calls) :
           /\ Chk("C04_Truthful", k, TruthfulC(R, c))
           /\ Chk("C04_DeadFast", k, DeadFastC(R, c))
           /\ Chk("C04_Force", k, ForceC(R, c))
+          /\ Chk("C04_Stable", k, StableC(R, c))
 =============================================================================
